@@ -571,6 +571,8 @@ class Sqrt(Scalar):
     def __init__(self, data):
         super().__init__(data, name="sqrt")
         self.drawing_name = "sqrt({})".format(format_number(data))
+        root = data ** .5  # self-adjoint iff the root itself is real.
+        self._dagger = None if root.conjugate() == root else False
 
     @property
     def array(self):
